@@ -53,7 +53,15 @@ def b_set(I, v=None):
     sv = I.seq_value(v)
     _axiom('set(seq): x in result <=> exists i. seq[i] == x')
     es = type_sort(sv.ety, I.env.classes)
+    memo = I.ghost.setdefault('@memo', {})
+    if ('set_of_seq', sv.t.key()) in memo:
+        return I.alloc_set(SSetV(memo[('set_of_seq', sv.t.key())], sv.ety))
+    if sv.t.op == 'var' and sv.t.data in I.env.abstract_sets:
+        r = I.fresh_term('set(%s)' % sv.t.data, smt.SetS(es), True)
+        memo[('set_of_seq', sv.t.key())] = r
+        return I.alloc_set(SSetV(r, sv.ety))
     r = I.fresh_term('set_of_seq', smt.SetS(es), False)
+    memo[('set_of_seq', sv.t.key())] = r
     i = smt.fresh_bound('i', INT)
     x = smt.fresh_bound('x', es)
     rng = smt.And(smt.Le(smt.IntC(0), i), smt.Lt(i, smt.SeqLen(sv.t)))
@@ -78,6 +86,8 @@ def b_list(I, v=()):
         es = smt.sort_args(sv.t.sort)[1][0]
         r = I.fresh_term('list_of_set', smt.SeqS(es), False)
         I.assume(smt.Eq(smt.SeqLen(r), smt.SetCard(sv.t)))
+        # membership of the elements is asserted lazily, per index actually read (no quantifier)
+        I.ghost.setdefault('@list_of_set', {})[r.key()] = sv.t
         return I.alloc_list(SSeqV(r, sv.ety))
     raise Unsupported('list(%r)' % (v,))
 
@@ -303,6 +313,9 @@ def b_range(I, *a):
 
 
 def b_sorted(I, v, key=None, reverse=False):
+    if I.concrete_items(v) is None:
+        # sorted() of a symbolic collection: only its identity is kept (used for messages)
+        return SOpaque(I.fresh_term('sorted', smt.REF, False), 'sorted')
     items = I.need_items(v)
     if any(isinstance(x, SV) for x in items) or key is not None and not isinstance(key, types.FunctionType):
         raise Unsupported('sorted on symbolic items')
@@ -457,7 +470,7 @@ def call_method(I, selfv, name, args, kwargs):
 
 
 def str_method(I, s, name, args, kwargs):
-    sym = isinstance(s, SStr) or any(isinstance(a, SV) for a in args)
+    sym = isinstance(s, SStr) or any(isinstance(a, (SV, MSet, MList)) for a in args)
     if name == 'format':
         return I.str_format(s, args, kwargs)
     if not sym and not any(_has_sym(I, a) for a in args):
@@ -491,6 +504,11 @@ def str_method(I, s, name, args, kwargs):
             if r is not None:
                 return r
         return SStr(smt.StrReplaceAll(st, I.term_of(a), I.term_of(b)), taint)
+    if name == 'join' and not isinstance(s, SStr):
+        h = I.env.str_models.get('join')
+        if h is not None:
+            return h(I, s, *args, **kwargs)
+        return SStr(I.fresh_term('joined', smt.STR, False))
     if name in ('strip', 'rstrip', 'lstrip', 'lower', 'upper', 'split', 'splitlines', 'join',
                 'encode', 'decode'):
         h = I.env.str_models.get(name)
